@@ -206,6 +206,27 @@ fn step_clock(ctx: &Ctx) {
     }
 }
 
+fn access_code(n: u64) -> AccessCode {
+    match n & 15 {
+        0 => AccessCode::MoveTranslated,
+        1 => AccessCode::CoprDataWrite,
+        2 => AccessCode::AutoVectorIrqAck,
+        3 => AccessCode::CoprDataFetch,
+        4 => AccessCode::StopAck,
+        5 => AccessCode::CoprBroadcast,
+        6 => AccessCode::CoprStatusFetch,
+        7 => AccessCode::ReadInterlocked,
+        8 => AccessCode::AddressFetch,
+        9 => AccessCode::OperandFetch,
+        10 => AccessCode::Write,
+        11 => AccessCode::IrqAck,
+        12 => AccessCode::IfAfterPcDisc,
+        13 => AccessCode::InstrPrefetch,
+        14 => AccessCode::InstrFetch,
+        _ => AccessCode::NoOp,
+    }
+}
+
 fn exec_op(ctx: &mut Ctx, tok: &str) -> String {
     let f: Vec<&str> = tok.split(':').collect();
     let a = |i: usize| -> u64 { hx(f[i]) };
@@ -221,10 +242,12 @@ fn exec_op(ctx: &mut Ctx, tok: &str) -> String {
         "rb" | "rh" | "rw" | "oh" | "ow" => {
             let (_, bus) = ctx.dmd.verif_parts();
             let addr = a(1) as usize;
+            // optional third field: the access code the read is made with (the result must not depend on it)
+            let code = if f.len() > 2 { access_code(a(2)) } else { AccessCode::AddressFetch };
             let r: Result<u64, BusError> = match f[0] {
-                "rb" => bus.read_byte(addr, AccessCode::AddressFetch).map(u64::from),
-                "rh" => bus.read_half(addr, AccessCode::AddressFetch).map(u64::from),
-                "rw" => bus.read_word(addr, AccessCode::AddressFetch).map(u64::from),
+                "rb" => bus.read_byte(addr, code).map(u64::from),
+                "rh" => bus.read_half(addr, code).map(u64::from),
+                "rw" => bus.read_word(addr, code).map(u64::from),
                 "oh" => bus.read_op_half(addr).map(u64::from),
                 _ => bus.read_op_word(addr).map(u64::from),
             };
@@ -245,6 +268,21 @@ fn exec_op(ctx: &mut Ctx, tok: &str) -> String {
             match r {
                 Ok(()) => "ok".into(),
                 Err(e) => bus_err(&e).into(),
+            }
+        }
+        "lx" => {
+            // a host load that may run past the end of its device: Mem::load stores byte by byte and panics at the first
+            // byte outside the vector; the case goes on with whatever state that leaves
+            let bytes = hexbytes(f[2]);
+            let addr = a(1) as usize;
+            let r = catch_unwind(AssertUnwindSafe(|| {
+                let (_, bus) = ctx.dmd.verif_parts();
+                bus.load(addr, &bytes)
+            }));
+            match r {
+                Ok(Ok(())) => "ok".into(),
+                Ok(Err(e)) => bus_err(&e).into(),
+                Err(_) => "p".into(),
             }
         }
         "ld" => {
